@@ -598,10 +598,26 @@ func snssaiBytes(r *Rng) []byte {
 }
 
 func dnnBytes(r *Rng) []byte {
+	name := r.Pick([]string{"internet", "ims", "free5gc.org", "internet.mnc093.mcc208.gprs", "IMS", "a.b.c.d.e", "x"})
+	if r.Chance(15) {
+		// network identifier + operator identifier with other digits
+		name = fmt.Sprintf("%s.mnc%03d.mcc%03d.gprs", r.Pick([]string{"internet", "ims", "iot"}), r.Intn(1000), r.Intn(1000))
+	}
+	if r.Chance(4) {
+		name = strings.Repeat("w", 63) // longest label
+	}
 	var b []byte
-	for _, l := range strings.Split(r.Pick([]string{"internet", "ims", "free5gc.org", "internet.mnc093.mcc208.gprs"}), ".") {
+	for _, l := range strings.Split(name, ".") {
 		b = append(b, byte(len(l)))
 		b = append(b, l...)
+	}
+	// legal but unusual encodings of the same name: the RFC 1035 root label at the end
+	// (some UEs send it), once or twice
+	if r.Chance(20) {
+		b = append(b, 0)
+		if r.Chance(25) {
+			b = append(b, 0)
+		}
 	}
 	return b
 }
